@@ -1,25 +1,46 @@
 package gov
 
 import (
-	"sort"
 	"testing"
+	"time"
+
+	"github.com/pokt-network/pocket-core/codec"
+	govTypes "github.com/pokt-network/pocket-core/x/gov/types"
+	"pgregory.net/rapid"
+
+	"verif/harness/chain"
 )
 
-func TestProbeInvalid(t *testing.T) {
-	pt := paramTypes()
-	keys := make([]string, 0)
-	for k := range pt {
-		keys = append(keys, k)
-	}
-	sort.Strings(keys)
-	for _, k := range keys {
-		ty := pt[k]
-		for _, iv := range invalidValues(ty) {
-			v, err := decodeAs([]byte(iv), ty)
-			if err == nil {
-				t.Errorf("%s (%s): invalid candidate %s decodes to %v", k, ty, iv, v)
+func TestProbeNotes(t *testing.T) {
+	rapid.Check(t, func(rt *rapid.T) {
+		w := genGovWorld(rt, false)
+		n := chain.NewNode(&w.spec)
+		gk := n.App.VerifGovKeeper()
+		send := func(u govTypes.Upgrade) {
+			n.BeginBlock(chain.Block{DT: time.Second})
+			r := n.DeliverTx(w.signAs(&govTypes.MsgUpgrade{Address: w.dao.addr, Upgrade: u}, w.dao))
+			n.Commit(n.EndBlock())
+			lg := r.Log
+			if len(lg) > 150 {
+				lg = lg[:150]
 			}
+			t.Logf("upgrade %v -> code %d log %q", u, r.Code, lg)
+			t.Logf("   stored %v", gk.GetUpgrade(n.Ctx()).Features)
+			t.Logf("   globals %v", codec.UpgradeFeatureMap)
 		}
-	}
-	t.Log(len(keys), "keys")
+		send(govTypes.Upgrade{Height: 1, Version: "FEATURE", Features: []string{"NOCOLON"}})
+		send(govTypes.Upgrade{Height: 1, Version: "FEATURE", Features: []string{"BAD:abc"}})
+		send(govTypes.Upgrade{Height: 1, Version: "FEATURE", Features: []string{"ZERO:0"}})
+		send(govTypes.Upgrade{Height: 1, Version: "FEATURE", Features: []string{"TRI:5:6"}})
+		// gov/upgrade through MsgChangeParam
+		cur := gk.GetUpgrade(n.Ctx())
+		cur.Features = append(cur.Features, "VIAPARAM:9")
+		n.BeginBlock(chain.Block{DT: time.Second})
+		r := n.DeliverTx(w.signAs(&govTypes.MsgChangeParam{FromAddress: w.dao.addr, ParamKey: "gov/upgrade", ParamVal: mustJSON(cur)}, w.dao))
+		n.Commit(n.EndBlock())
+		t.Logf("changeParam gov/upgrade code %d; stored %v", r.Code, gk.GetUpgrade(n.Ctx()).Features)
+		t.Logf("   running globals %v", codec.UpgradeFeatureMap)
+		_, m, h, o := restartFromDefaults(n)
+		t.Logf("   restarted globals %v %d %d", m, h, o)
+	})
 }
